@@ -890,6 +890,39 @@ func (e *Env) callExpr(c *CExpr) val {
 		m := e.eval(c.Args[0])
 		mt := m.typ.Underlying().(*types.Map)
 		return val{sel(vc.get(e.cur, vc.mapDom(mt)), m.t), nil, "(Array " + vc.sortOf(mt.Key()) + " Bool)"}
+	case "same":
+		// same(a, b): identical values (for floats: the same bit pattern class, unlike ==)
+		argn(2)
+		a, b := e.eval(c.Args[0]), e.eval(c.Args[1])
+		a, b = e.coerceNil(a, b)
+		return boolVal(eq(a.t, b.t))
+	case "boxas":
+		// boxas(x, "T"): the interface value holding x as a value of type T (same representation sort)
+		argn(2)
+		a := e.eval(c.Args[0])
+		if c.Args[1].Op != "str" {
+			e.fail("boxas needs a type name string")
+		}
+		t := e.resolveType(c.Args[1].Name)
+		if vc.sortOf(t) != a.srt {
+			e.fail("boxas: sort mismatch %s vs %s", vc.sortOf(t), a.srt)
+		}
+		return val{app("mk_any", vc.typeID(t), vc.box(a.srt, a.t)), types.NewInterfaceType(nil, nil), sAny}
+	case "strof":
+		// strof(bytes): the string conversion of a byte slice
+		argn(1)
+		a := e.eval(c.Args[0])
+		sl, ok := a.typ.Underlying().(*types.Slice)
+		if !ok {
+			e.fail("strof of non-slice")
+		}
+		vc.declFun("str_of_bytes", []string{vc.seqSort(sInt)}, sStr)
+		return val{app("str_of_bytes", vc.view(sInt, vc.get(e.cur, vc.arrHeap(sl.Elem())), a.t)), types.Typ[types.String], sStr}
+	case "vals":
+		argn(1)
+		m := e.eval(c.Args[0])
+		mt := m.typ.Underlying().(*types.Map)
+		return val{sel(vc.get(e.cur, vc.mapVal(mt)), m.t), nil, "(Array " + vc.sortOf(mt.Key()) + " " + vc.sortOf(mt.Elem()) + ")"}
 	case "ite":
 		argn(3)
 		cnd := e.evalBool(c.Args[0])
@@ -1068,14 +1101,20 @@ func (e *Env) callExpr(c *CExpr) val {
 		rt, rs := tenv.resolveSpecType(sf.Ret)
 		fname := quote("spec$" + c.Name)
 		vc.declFun(fname, sorts, rs)
-		if !vc.gdecl["axioms:"+c.Name] {
-			vc.gdecl["axioms:"+c.Name] = true
+		if !vc.declared["axioms:"+c.Name] {
+			// axioms may mention heaps (they are stated for the state of first use: the messages they speak about are
+			// assumed immutable), so they live in the ordinary stream and are re-emitted after a rollback
+			vc.declared["axioms:"+c.Name] = true
 			for _, ax := range sf.Axioms {
-				n := tenv.cloneWith(e.cur)
+				n := tenv.cloneWith(e.x.entry0)
+				if e.x.entry0 == nil {
+					n = tenv.cloneWith(e.cur)
+				}
 				n.names = map[string]val{}
 				n.own = false
+				n.old = n.cur
 				t := n.evalBool(ax)
-				vc.global(func() { vc.assert(t) })
+				vc.assert(t)
 			}
 		}
 		return val{app(fname, as...), rt, rs}
